@@ -1,6 +1,6 @@
 (** C15 — Knowledge base lookups, order and version stay consistent.
     Statements only; proofs in Proofs/KBProofs.v. *)
-From RRE Require Import Base.Sx Model.KB Proofs.KBProofs.
+From RRE Require Import Base.Sx Model.KB Proofs.KBProofs Proofs.KBRefineProofs.
 From Coq Require Import Sorting.Sorted.
 Open Scope Z_scope.
 
@@ -34,6 +34,23 @@ Print Assumptions C15_listing_descending.
 Theorem C15_lock_order : lock_order_ok = true.
 Proof. exact lock_order_holds. Qed.
 Print Assumptions C15_lock_order.
+
+(** THE SEQUENTIAL REFINEMENT, for every operation sequence of any length over any names and saliences: after every
+    operation the model of knowledge_base.rs (sorted vector + name index rebuilt on every change) shows exactly what the
+    abstract specification shows - the operation's result, the listing, the lookup of every name, the version.
+    The specification ([sstep], Model/KB.v) is the property's own text: a bag of rules with unique names, a duplicate add
+    refused without effect, lookup by name, version + 1 on every successful change, and the listing sorted by salience
+    descending and insertion sequence ascending. *)
+Theorem C15_sequential_refinement : forall ops, run_from init ops = srun_from sinit ops.
+Proof. exact kb_refines_spec. Qed.
+Print Assumptions C15_sequential_refinement.
+
+(** ... and that listing is every stored rule exactly once, strictly ordered by (salience descending, insertion order). *)
+Theorem C15_spec_listing : forall s, NoDup (map s_seq (srules s)) ->
+  Permutation.Permutation (slisting s) (map s_rule (srules s))
+  /\ StronglySorted (fun a b => before a b = true) (fold_left (fun acc x => sinsert x acc) (srules s) []).
+Proof. exact spec_listing_sorted. Qed.
+Print Assumptions C15_spec_listing.
 
 (** non-vacuity: ties keep insertion order; removal and re-add under the same name *)
 Example C15_example :
